@@ -51,11 +51,58 @@ MODS = {
 }
 
 
+_SNAP: Dict[str, Dict[str, Any]] = {}          # module name -> {global name: object}
+_SNAP_CLS: Dict[Any, Dict[str, Any]] = {}       # class -> {attribute name: raw descriptor}
+
+
+def _snapshot_new_modules() -> None:
+    """remember the pristine globals and class attributes (raw descriptors) of every jasm module when it is first imported"""
+    import sys
+    for mn, m in list(sys.modules.items()):
+        if (mn == "jasm" or mn.startswith("jasm.")) and m is not None and mn not in _SNAP:
+            g = dict(vars(m))
+            _SNAP[mn] = g
+            for v in g.values():
+                if isinstance(v, type) and getattr(v, "__module__", "") == mn and v not in _SNAP_CLS:
+                    _SNAP_CLS[v] = dict(vars(v))
+
+
+def restore_all() -> None:
+    """undo every patch a contract scenario may have left on the jasm modules / classes (stubs installed for modular
+    verification must never leak into the next scenario of the same worker process)"""
+    import sys
+    for mn, g in _SNAP.items():
+        m = sys.modules.get(mn)
+        if m is None:
+            continue
+        for k, v in g.items():
+            if k.startswith("__") and k.endswith("__"):
+                continue
+            if vars(m).get(k, None) is not v:
+                setattr(m, k, v)
+    for cls, attrs in _SNAP_CLS.items():
+        cur = vars(cls)
+        for k, v in attrs.items():
+            if k in ("__dict__", "__weakref__", "__doc__", "__module__", "__abstractmethods__", "_abc_impl"):
+                continue
+            if cur.get(k, None) is not v:
+                try:
+                    setattr(cls, k, v)
+                except (AttributeError, TypeError):
+                    pass
+        for k in [k for k in cur if k not in attrs and not (k.startswith("__") and k.endswith("__")) and k != "_abc_impl"]:
+            try:
+                delattr(cls, k)
+            except (AttributeError, TypeError):
+                pass
+
+
 class _Lazy:
     def __getattr__(self, name):
         if name in MODS:
             m = importlib.import_module(MODS[name])
             setattr(self, name, m)
+            _snapshot_new_modules()
             return m
         raise AttributeError(name)
 
